@@ -14,13 +14,13 @@ use hashbrown::hash_table::Entry;
 
 pub type Table<E> = hashbrown::HashTable<E, CkAlloc>;
 
-pub const TNOPS: usize = 17;
+pub const TNOPS: usize = 18;
 pub const TOP_NAMES: [&str; TNOPS] = [
     "insert_unique", "find", "find_exact", "find_mut", "find_entry", "entry", "retain", "extract_if", "drain", "clear",
-    "reserve_shrink", "get_many_mut", "iter_hash", "iterate", "clone", "into_iter", "leak",
+    "reserve_shrink", "get_many_mut", "iter_hash", "iterate", "clone", "into_iter", "leak", "fmt_misc",
 ];
-pub const TW_GENERAL: [u32; TNOPS] = [30, 8, 8, 5, 14, 16, 2, 2, 1, 1, 5, 3, 6, 3, 2, 1, 0];
-pub const TW_LEAKY: [u32; TNOPS] = [30, 6, 6, 4, 12, 14, 3, 3, 2, 1, 5, 3, 5, 3, 2, 2, 4];
+pub const TW_GENERAL: [u32; TNOPS] = [30, 8, 8, 5, 14, 16, 2, 2, 1, 1, 5, 3, 6, 3, 2, 1, 0, 4];
+pub const TW_LEAKY: [u32; TNOPS] = [30, 6, 6, 4, 12, 14, 3, 3, 2, 1, 5, 3, 5, 3, 2, 2, 4, 4];
 
 pub struct TableDrv<E: Elem> {
     pub t: Table<E>,
@@ -647,6 +647,80 @@ impl<E: Elem> TableDrv<E> {
                 drop(it);
                 self.model.clear();
                 len as u64
+            }
+            17 => {
+                // Debug formatting (walks cloned raw iterators), IterHash clone/fold, &mut iteration, ExtractIf::size_hint
+                let sub = rng.below(7);
+                let id = self.pick_id(rng);
+                let h = self.h(id);
+                let len = self.t.len();
+                oplog!(ctx, "fmt_misc sub{} id {}", sub, id);
+                match sub {
+                    0 => {
+                        let s = format!("{:?}", self.t);
+                        crate::check!(!s.is_empty(), "empty Debug output");
+                    }
+                    1 => {
+                        let s = format!("{:?}", self.t.iter()) + &format!("{:?}", self.t.iter_mut());
+                        crate::check!(!s.is_empty(), "empty Debug output");
+                        let c2 = self.t.clone();
+                        let mut it = c2.into_iter();
+                        it.next();
+                        let _ = format!("{:?}", it);
+                        let mut c3 = self.t.clone();
+                        let mut d = c3.drain();
+                        d.next();
+                        let _ = format!("{:?}", d);
+                    }
+                    2 => {
+                        let it = self.t.iter_hash(h);
+                        let a: Vec<usize> = it.clone().map(|e| e as *const E as usize).collect();
+                        let b = it.fold(Vec::new(), |mut v, e| {
+                            e.check();
+                            v.push(e as *const E as usize);
+                            v
+                        });
+                        crate::check!(a == b, "IterHash: a clone and fold() disagree ({} vs {} elements)", a.len(), b.len());
+                        let _ = format!("{:?}", self.t.iter_hash(h));
+                        let n = self.t.iter_hash_mut(h).fold(0usize, |n, e| {
+                            e.check();
+                            n + 1
+                        });
+                        crate::check!(n == a.len(), "IterHashMut::fold visits {} elements, IterHash {}", n, a.len());
+                        let _ = format!("{:?}", self.t.iter_hash_mut(h));
+                    }
+                    3 => {
+                        let mut n = 0;
+                        for e in &mut self.t {
+                            e.check();
+                            n += 1;
+                        }
+                        crate::check!(n == len, "for e in &mut table yields {} of {}", n, len);
+                    }
+                    4 => {
+                        let it = self.t.extract_if(|_| false);
+                        let (lo, hi) = it.size_hint();
+                        crate::check!(lo == 0 && hi.map_or(true, |h| h >= len), "ExtractIf::size_hint() = ({}, {:?}) for {} elements", lo, hi, len);
+                        drop(it);
+                        crate::check!(self.t.len() == len, "an unused ExtractIf changed the table");
+                    }
+                    5 => {
+                        let e = self.t.entry(h, |e| e.id() == id, hs);
+                        let s = format!("{:?}", e);
+                        crate::check!(!s.is_empty(), "empty Debug output");
+                    }
+                    _ => {
+                        match self.t.find_entry(h, |e| e.id() == id) {
+                            Ok(o) => {
+                                let _ = format!("{:?}", o);
+                            }
+                            Err(a) => {
+                                let _ = format!("{:?}", a);
+                            }
+                        }
+                    }
+                }
+                sub
             }
             _ => {
                 let sub = rng.below(6);
